@@ -33,23 +33,47 @@ import (
 
 // Font is the abstract font F of Subset.tla (JSON as printed by TLC).
 type Font struct {
-	Kind    string  `json:"kind"`
-	N       int     `json:"n"`
-	Out     []int   `json:"out"`
-	W       []int   `json:"w"`
-	Name    []int   `json:"name"`
-	CID     []int   `json:"cid"`
-	FD      []int   `json:"fd"`
-	Comp    [][]int `json:"comp"`
-	CmapCfg string  `json:"cmapcfg"`
-	Cmap    [][]int `json:"cmap"`
-	HasEnc  bool    `json:"hasenc"`
-	Enc     [][]int `json:"enc"`
-	Gsub    string  `json:"gsub"`
-	Ligs    [][]int `json:"ligs"`
-	Subs    [][]int `json:"subs"`
-	Gpos    bool    `json:"gpos"`
-	Pairs   [][]int `json:"pairs"`
+	Kind     string  `json:"kind"`
+	N        int     `json:"n"`
+	Out      []int   `json:"out"`
+	W        []int   `json:"w"`
+	Name     []int   `json:"name"`
+	CID      []int   `json:"cid"`
+	FD       []int   `json:"fd"`
+	Comp     [][]int `json:"comp"`
+	CmapCfg  string  `json:"cmapcfg"`
+	Cmap     [][]int `json:"cmap"`
+	HasEnc   bool    `json:"hasenc"`
+	Enc      [][]int `json:"enc"`
+	Gsub     string  `json:"gsub"`
+	Ligs     [][]int `json:"ligs"`
+	Ligsplit int     `json:"ligsplit"`
+	Subs     [][]int `json:"subs"`
+	Subs2    [][]int `json:"subs2"`
+	Gpos     bool    `json:"gpos"`
+	Pairs    [][]int `json:"pairs"`
+	Pairs2   [][]int `json:"pairs2"`
+}
+
+// Pad changes only the concrete realisation of a font, never its abstract content: it makes
+// strings, glyph programs and instruction blocks longer, so that the tables of the written
+// subset pass through the size boundaries of the file formats (INDEX offset sizes, short / long
+// loca).  A [g, k] pair pads glyph g by k units.
+type Pad struct {
+	Copyright int     `json:"copyright"` // extra characters of the copyright notice (CFF String INDEX)
+	Name      [][]int `json:"name"`      // extra characters of glyph names (simple CFF)
+	CS        [][]int `json:"cs"`        // extra path segments / bytes of CFF glyph programs
+	Instr     [][]int `json:"instr"`     // extra instruction bytes of simple TrueType glyphs
+	GlyfTotal int     `json:"glyftotal"` // if > 0: grow the listed simple glyphs until the subset's glyf table has this size
+}
+
+func padOf(pp [][]int, g int) int {
+	for _, e := range pp {
+		if len(e) == 2 && e[0] == g {
+			return e[1]
+		}
+	}
+	return 0
 }
 
 // Glyph is one glyph of a projection.
@@ -97,6 +121,7 @@ func tokenOfName(s string) int {
 	if s == ".notdef" {
 		return 0
 	}
+	s = strings.TrimRight(s, "x") // name padding
 	if strings.HasPrefix(s, "G") {
 		if v, err := strconv.Atoi(s[1:]); err == nil && v > 0 {
 			return v
@@ -172,7 +197,10 @@ func gid(x int) glyph.ID { return glyph.ID(uint16(x)) }
 // arguments, no / uniform / x-y / 2x2 scale, USE_MY_METRICS, ROUND_XY_TO_GRID), whether a
 // composite carries no, an empty or a non-empty instruction block (WE_HAVE_INSTRUCTIONS), and
 // the instruction bytes of simple glyphs (odd and even glyph lengths).
-func Build(F *Font, salt uint32) (*sfnt.Font, *Ident) {
+func Build(F *Font, salt uint32, pad *Pad) (*sfnt.Font, *Ident) {
+	if pad == nil {
+		pad = &Pad{}
+	}
 	f := &sfnt.Font{
 		FamilyName:         "Verif Subset " + F.Kind,
 		Width:              os2.WidthNormal,
@@ -192,13 +220,16 @@ func Build(F *Font, salt uint32) (*sfnt.Font, *Ident) {
 		UnderlinePosition:  -100,
 		UnderlineThickness: 50,
 	}
+	if pad.Copyright > 0 {
+		f.Copyright = strings.Repeat("c", pad.Copyright)
+	}
 	id := &Ident{outline: map[string]int{}}
 	n := F.N
 	switch F.Kind {
 	case "ttf":
 		out := &glyf.Outlines{
 			Maxp: &maxp.TTFInfo{MaxPoints: 8, MaxContours: 2, MaxCompositePoints: 64, MaxCompositeContours: 16,
-				MaxZones: 2, MaxComponentElements: 4, MaxComponentDepth: 8},
+				MaxZones: 2, MaxComponentElements: 4, MaxComponentDepth: 8, MaxSizeOfInstructions: 65535},
 			Tables: map[string][]byte{},
 		}
 		named := false
@@ -210,7 +241,7 @@ func Build(F *Font, salt uint32) (*sfnt.Font, *Ident) {
 			case F.Out[g] == -3:
 				gl = nil
 			default:
-				gl = simpleTT(g, salt)
+				gl = simpleTT(g, salt, padOf(pad.Instr, g))
 			}
 			out.Glyphs = append(out.Glyphs, gl)
 			out.Widths = append(out.Widths, funit.Int16(F.W[g]))
@@ -230,7 +261,11 @@ func Build(F *Font, salt uint32) (*sfnt.Font, *Ident) {
 	case "cff", "cid":
 		out := &cff.Outlines{}
 		for g := 0; g < n; g++ {
-			gl := cff.NewGlyph(nameOf(F.Name[g]), float64(F.W[g]))
+			name := nameOf(F.Name[g])
+			if k := padOf(pad.Name, g); k > 0 && name != "" {
+				name += strings.Repeat("x", k)
+			}
+			gl := cff.NewGlyph(name, float64(F.W[g]))
 			if F.Out[g] != -3 {
 				x := float64(10 * g)
 				gl.MoveTo(x, 0)
@@ -238,6 +273,27 @@ func Build(F *Font, salt uint32) (*sfnt.Font, *Ident) {
 				gl.LineTo(30, 200+float64(g))
 				if g%2 == 1 {
 					gl.CurveTo(20, 150, 10, 100, x, 10)
+				}
+				// program padding: k/2 short zig-zag segments (two bytes each), plus one
+				// long segment (three bytes) when k is odd
+				if k := padOf(pad.CS, g); k > 0 {
+					px, py := 30.0, 200+float64(g)
+					if g%2 == 1 {
+						px, py = x, 10
+					}
+					if k%2 == 1 {
+						px += 300
+						gl.LineTo(px, py+1)
+						py++
+					}
+					for j := 0; j < k/2; j++ {
+						dx := float64(1 + j%5)
+						if j%2 == 1 {
+							dx = -dx
+						}
+						px, py = px+dx, py+float64(1+j%3)*[]float64{1, -1}[(j/2)%2]
+						gl.LineTo(px, py)
+					}
 				}
 			}
 			out.Glyphs = append(out.Glyphs, gl)
@@ -318,32 +374,32 @@ func Build(F *Font, salt uint32) (*sfnt.Font, *Ident) {
 		for i, c := range F.Gsub {
 			switch c {
 			case 'l':
-				st := &gtab.Gsub4_1{Cov: coverage.Table{}}
-				for _, r := range F.Ligs {
-					first := gid(r[0])
-					idx, ok := st.Cov[first]
-					if !ok {
-						idx = len(st.Repl)
-						st.Cov[first] = idx
-						st.Repl = append(st.Repl, nil)
+				// the first Ligsplit rules form the first subtable, the rest the second one
+				var sts []gtab.Subtable
+				for _, part := range [][][]int{F.Ligs[:F.Ligsplit], F.Ligs[F.Ligsplit:]} {
+					if len(part) == 0 {
+						continue
 					}
-					lig := gtab.Ligature{Out: gid(r[len(r)-1])}
-					for _, x := range r[1 : len(r)-1] {
-						lig.In = append(lig.In, gid(x))
-					}
-					st.Repl[idx] = append(st.Repl[idx], lig)
+					sts = append(sts, ligSubtable(part))
 				}
 				info.LookupList = append(info.LookupList, &gtab.LookupTable{
-					Meta: &gtab.LookupMetaInfo{LookupType: 4}, Subtables: []gtab.Subtable{st}})
+					Meta: &gtab.LookupMetaInfo{LookupType: 4}, Subtables: sts})
 				info.FeatureList = append(info.FeatureList, &gtab.Feature{Tag: "liga", Lookups: []gtab.LookupIndex{gtab.LookupIndex(i)}})
 			case 's':
-				st := &gtab.Gsub1_1{Cov: coverage.Set{}}
-				for _, r := range F.Subs {
-					st.Cov[gid(r[0])] = true
-					st.Delta = gid(r[1] - r[0])
+				var sts []gtab.Subtable
+				for _, part := range [][][]int{F.Subs, F.Subs2} {
+					if len(part) == 0 {
+						continue
+					}
+					st := &gtab.Gsub1_1{Cov: coverage.Set{}}
+					for _, r := range part {
+						st.Cov[gid(r[0])] = true
+						st.Delta = gid(r[1] - r[0])
+					}
+					sts = append(sts, st)
 				}
 				info.LookupList = append(info.LookupList, &gtab.LookupTable{
-					Meta: &gtab.LookupMetaInfo{LookupType: 1}, Subtables: []gtab.Subtable{st}})
+					Meta: &gtab.LookupMetaInfo{LookupType: 1}, Subtables: sts})
 				info.FeatureList = append(info.FeatureList, &gtab.Feature{Tag: "smcp", Lookups: []gtab.LookupIndex{gtab.LookupIndex(i)}})
 			}
 			opt = append(opt, gtab.FeatureIndex(i))
@@ -352,19 +408,50 @@ func Build(F *Font, salt uint32) (*sfnt.Font, *Ident) {
 		f.Gsub = info
 	}
 	if F.Gpos {
-		st := gtab.Gpos2_1{}
-		for _, p := range F.Pairs {
-			st[glyph.Pair{Left: gid(p[0]), Right: gid(p[1])}] = &gtab.PairAdjust{
-				First: &gtab.GposValueRecord{XAdvance: funit.Int16(p[2])}}
+		var sts []gtab.Subtable
+		for k, part := range [][][]int{F.Pairs, F.Pairs2} {
+			if len(part) == 0 && k > 0 {
+				continue
+			}
+			st := gtab.Gpos2_1{}
+			for _, p := range part {
+				st[glyph.Pair{Left: gid(p[0]), Right: gid(p[1])}] = &gtab.PairAdjust{
+					First: &gtab.GposValueRecord{XAdvance: funit.Int16(p[2])}}
+			}
+			sts = append(sts, st)
 		}
 		f.Gpos = &gtab.Info{
 			ScriptList: gtab.ScriptListInfo{
 				language.MustParse("und-Zyyy"): {Required: 0xFFFF, Optional: []gtab.FeatureIndex{0}}},
 			FeatureList: gtab.FeatureListInfo{{Tag: "kern", Lookups: []gtab.LookupIndex{0}}},
-			LookupList:  gtab.LookupList{{Meta: &gtab.LookupMetaInfo{LookupType: 2}, Subtables: []gtab.Subtable{st}}},
+			LookupList:  gtab.LookupList{{Meta: &gtab.LookupMetaInfo{LookupType: 2}, Subtables: sts}},
 		}
 	}
 	return f, id
+}
+
+// ligSubtable builds one GSUB 4.1 subtable; coverage indices follow the glyph ids, the rules of
+// one first glyph keep their order.
+func ligSubtable(rules [][]int) *gtab.Gsub4_1 {
+	byFirst := map[int][]gtab.Ligature{}
+	var firsts []int
+	for _, r := range rules {
+		if _, ok := byFirst[r[0]]; !ok {
+			firsts = append(firsts, r[0])
+		}
+		lig := gtab.Ligature{Out: gid(r[len(r)-1])}
+		for _, x := range r[1 : len(r)-1] {
+			lig.In = append(lig.In, gid(x))
+		}
+		byFirst[r[0]] = append(byFirst[r[0]], lig)
+	}
+	sort.Ints(firsts)
+	st := &gtab.Gsub4_1{Cov: coverage.Table{}}
+	for i, g := range firsts {
+		st.Cov[gid(g)] = i
+		st.Repl = append(st.Repl, byFirst[g])
+	}
+	return st
 }
 
 func mix(a, b uint32) uint32 {
@@ -478,12 +565,13 @@ func encodeFormat12(ent [][2]int) []byte {
 	return b
 }
 
-func simpleTT(g int, salt uint32) *glyf.Glyph {
+func simpleTT(g int, salt uint32, extra int) *glyf.Glyph {
 	// one triangle, unique per glyph, 0..3 instruction bytes (odd and even glyph lengths)
+	// plus `extra` padding bytes
 	pts := [][2]int{{10 * g, 0}, {100 + g, 50}, {30, 200 + g}}
-	ni := int(mix(salt, uint32(1000+g)) % 4)
-	body := []byte{0, 2, 0, byte(ni)} // endPts = [2], instruction count
-	body = append(body, []byte{0x4B, 0x4B, 0x4B}[:ni]...)
+	ni := int(mix(salt, uint32(1000+g))%4) + extra
+	body := []byte{0, 2, byte(ni >> 8), byte(ni)} // endPts = [2], instruction count
+	body = append(body, bytes.Repeat([]byte{0x4B}, ni)...)
 	var flags, xs, ys []byte
 	px, py := 0, 0
 	for _, p := range pts {
@@ -589,6 +677,7 @@ func Project(f *sfnt.Font, id *Ident) *Proj {
 				continue
 			}
 			tag := tags[li]
+			seenSub := map[glyph.ID]bool{} // within one lookup the first subtable that covers a glyph wins
 			for _, st := range lt.Subtables {
 				switch s := st.(type) {
 				case *gtab.Gsub4_1:
@@ -613,13 +702,21 @@ func Project(f *sfnt.Font, id *Ident) *Proj {
 					}
 				case *gtab.Gsub1_1:
 					for g := range s.Cov {
-						p.Subs = append(p.Subs, []any{tag, int(g), int(g + s.Delta)})
+						if !seenSub[g] {
+							p.Subs = append(p.Subs, []any{tag, int(g), int(g + s.Delta)})
+						}
+					}
+					for g := range s.Cov {
+						seenSub[g] = true
 					}
 				case *gtab.Gsub1_2:
 					for g, idx := range s.Cov {
-						if idx >= 0 && idx < len(s.SubstituteGlyphIDs) {
+						if idx >= 0 && idx < len(s.SubstituteGlyphIDs) && !seenSub[g] {
 							p.Subs = append(p.Subs, []any{tag, int(g), int(s.SubstituteGlyphIDs[idx])})
 						}
+					}
+					for g := range s.Cov {
+						seenSub[g] = true
 					}
 				default:
 					panic(fmt.Sprintf("subx: unexpected GSUB subtable %T", st))
@@ -643,15 +740,22 @@ func Project(f *sfnt.Font, id *Ident) *Proj {
 				continue
 			}
 			tag := tags[li]
+			seenPair := map[glyph.Pair]bool{} // the first subtable that lists a pair wins
 			for _, st := range lt.Subtables {
 				switch s := st.(type) {
 				case gtab.Gpos2_1:
 					for pr, adj := range s {
+						if seenPair[pr] {
+							continue
+						}
 						v := 0
 						if adj != nil && adj.First != nil {
 							v = int(adj.First.XAdvance)
 						}
 						p.Pairs = append(p.Pairs, []any{tag, int(pr.Left), int(pr.Right), v})
+					}
+					for pr := range s {
+						seenPair[pr] = true
 					}
 				default:
 					panic(fmt.Sprintf("subx: unexpected GPOS subtable %T", st))
@@ -774,6 +878,12 @@ func ProjectCFF(p *Proj, o *cff.Outlines, id *Ident) {
 
 // WriteRead writes the font and reads it back.
 func WriteRead(f *sfnt.Font) (g *sfnt.Font, status string, msg string) {
+	g, status, msg, _ = WriteReadBytes(f)
+	return
+}
+
+// WriteReadBytes is WriteRead, also returning the written file (nil if Write failed).
+func WriteReadBytes(f *sfnt.Font) (g *sfnt.Font, status string, msg string, file []byte) {
 	defer func() {
 		if r := recover(); r != nil {
 			g, status, msg = nil, "panic", fmt.Sprint(r)
@@ -781,11 +891,106 @@ func WriteRead(f *sfnt.Font) (g *sfnt.Font, status string, msg string) {
 	}()
 	var buf bytes.Buffer
 	if _, err := f.Write(&buf); err != nil {
-		return nil, "write-error", err.Error()
+		return nil, "write-error", err.Error(), nil
 	}
-	g, err := sfnt.Read(bytes.NewReader(buf.Bytes()))
+	file = buf.Bytes()
+	g, err := sfnt.Read(bytes.NewReader(file))
 	if err != nil {
-		return nil, "read-error", err.Error()
+		return nil, "read-error", err.Error(), file
 	}
-	return g, "ok", ""
+	return g, "ok", "", file
+}
+
+// Measure walks a written sfnt file without the library and returns the sizes that the
+// boundary sweeps aim at: "glyf" (length of the glyf table), "string" and "charstrings"
+// (data length of the CFF String INDEX and CharStrings INDEX).  Missing or unparsable parts
+// are simply absent.
+func Measure(file []byte) (res map[string]int) {
+	res = map[string]int{}
+	defer func() { recover() }()
+	u16 := func(b []byte, p int) int { return int(b[p])<<8 | int(b[p+1]) }
+	u32 := func(b []byte, p int) int { return u16(b, p)<<16 | u16(b, p+2) }
+	n := u16(file, 4)
+	for i := 0; i < n; i++ {
+		rec := 12 + 16*i
+		tag := string(file[rec : rec+4])
+		off, length := u32(file, rec+8), u32(file, rec+12)
+		switch tag {
+		case "glyf":
+			res["glyf"] = length
+		case "CFF ":
+			measureCFF(file[off:off+length], res)
+		}
+	}
+	return res
+}
+
+// cffIndex returns the start and the length of the data of the INDEX at pos, the offset of
+// its first element's end, and the position behind the INDEX.
+func cffIndex(b []byte, pos int) (dataStart, dataLen, firstEnd, end int) {
+	count := int(b[pos])<<8 | int(b[pos+1])
+	if count == 0 {
+		return pos + 2, 0, 0, pos + 2
+	}
+	offSize := int(b[pos+2])
+	rd := func(i int) int {
+		v := 0
+		for k := 0; k < offSize; k++ {
+			v = v<<8 | int(b[pos+3+i*offSize+k])
+		}
+		return v
+	}
+	dataStart = pos + 3 + (count+1)*offSize
+	dataLen = rd(count) - 1
+	return dataStart, dataLen, rd(1) - 1, dataStart + dataLen
+}
+
+func measureCFF(b []byte, res map[string]int) {
+	defer func() { recover() }()
+	pos := int(b[2])
+	_, _, _, pos = cffIndex(b, pos) // Name INDEX
+	tdStart, _, tdLen, pos2 := cffIndex(b, pos)
+	_, strLen, _, _ := cffIndex(b, pos2)
+	res["string"] = strLen
+	// Top DICT: operator 17 = CharStrings offset
+	d := b[tdStart : tdStart+tdLen]
+	var ops []int
+	for i := 0; i < len(d); {
+		c := int(d[i])
+		switch {
+		case c <= 21:
+			if c == 12 {
+				i++
+			} else if c == 17 && len(ops) > 0 {
+				_, csLen, _, _ := cffIndex(b, ops[len(ops)-1])
+				res["charstrings"] = csLen
+			}
+			ops = ops[:0]
+			i++
+		case c == 28:
+			ops = append(ops, int(int16(int(d[i+1])<<8|int(d[i+2]))))
+			i += 3
+		case c == 29:
+			ops = append(ops, int(int32(uint32(d[i+1])<<24|uint32(d[i+2])<<16|uint32(d[i+3])<<8|uint32(d[i+4]))))
+			i += 5
+		case c == 30:
+			i++
+			for d[i]&0x0F != 0x0F && d[i]>>4 != 0x0F {
+				i++
+			}
+			i++
+			ops = append(ops, 0)
+		case c >= 32 && c <= 246:
+			ops = append(ops, c-139)
+			i++
+		case c >= 247 && c <= 250:
+			ops = append(ops, (c-247)*256+int(d[i+1])+108)
+			i += 2
+		case c >= 251 && c <= 254:
+			ops = append(ops, -(c-251)*256-int(d[i+1])-108)
+			i += 2
+		default:
+			i++
+		}
+	}
 }
